@@ -881,7 +881,7 @@ def eval_dyad_reshape(a, b, backend):
             r = b
         elif np_backend.isarray(b):
             if a < b.shape[0]:
-                r = np_backend.resize(b, (a,))
+                r = b[:a]
             else:
                 ns = np_backend.ones(len(b.shape),dtype=int)
                 ns[0] = a // b.shape[0]
